@@ -2,12 +2,13 @@
 """Run every mutant under /verif/mutants/<ID>/ against its property's quick check and
 write /verif/MUTATION_RESULTS.md.  usage: tools/run_mutants.py [ID ...]"""
 import glob, os, re, subprocess, sys, time
-props = sys.argv[1:] or sorted(os.listdir('/verif/mutants'))
+ROOT = os.path.dirname(os.path.dirname(os.path.abspath(__file__)))
+props = sys.argv[1:] or sorted(os.listdir(f'{ROOT}/mutants'))
 rows = []
 for prop in props:
-    for m in sorted(glob.glob(f'/verif/mutants/{prop}/*.diff')):
+    for m in sorted(glob.glob(f'{ROOT}/mutants/{prop}/*.diff')):
         t0 = time.time()
-        r = subprocess.run(['/verif/tools/mutate.py', m, prop], capture_output=True, text=True)
+        r = subprocess.run([f'{ROOT}/tools/mutate.py', m, prop], capture_output=True, text=True)
         out = r.stdout + r.stderr
         suite = re.search(r'suite: (.*)', out)
         if 'MUTANT-FAILS-SUITE' in out:
@@ -20,7 +21,7 @@ for prop in props:
         kind = re.search(r'kind=(\S+)', out)
         rows.append((prop, os.path.basename(m), verdict, kind.group(1) if kind else '', f'{time.time()-t0:.0f}s'))
         print(rows[-1], flush=True)
-with open('/verif/MUTATION_RESULTS.md', 'a') as fh:
+with open(f'{ROOT}/MUTATION_RESULTS.md', 'a') as fh:
     fh.write(f'\n## run of {time.strftime("%Y-%m-%d %H:%M")} ({" ".join(props)})\n\n')
     fh.write('| property | mutant | result | first discrepancy kind | time |\n|---|---|---|---|---|\n')
     for r in rows:
